@@ -319,14 +319,17 @@ class MiniInterp:
             result = None
             if is_gen:
                 # the body runs only as far as the consumer pulls (a consumer that stops early leaves the rest unexecuted)
-                def body(sink, env=env, fi=fi):
+                holder = {}
+
+                def body(sink, env=env, fi=fi, holder=holder):
                     env["__yield__"] = sink
                     try:
                         self.block(fi.node.body, env, fi)
-                    except _Ret:
-                        pass
+                    except _Ret as r:
+                        holder["ret"] = r.v          # the value of `yield from <this generator>`
                 g, close = thread_generator(body)
                 result = LazyIter(g, close)
+                result.holder = holder
             else:
                 try:
                     self.block(fi.node.body, env, fi)
@@ -1082,7 +1085,7 @@ class MiniInterp:
                     env["__yield__"].append(x)
             else:
                 env["__yield__"].extend(self.iterate(src))
-            return None
+            return getattr(src, "holder", {}).get("ret") if isinstance(src, LazyIter) else None
         if isinstance(n, ast.Starred):
             raise Unknown("starred expression")
         raise Unknown(f"expression {type(n).__name__}")
